@@ -354,7 +354,7 @@ CLAIMS = {
         "engine": "kani",
         "technique": "contract-based deductive verification: Kani (CBMC) loop-free full-domain harnesses in contract form on Runtime::{allocate, deallocate, can_allocate_by}; Verus contracts on the real text of XValue::size, FencedString::size, the dyn_size arms of XSequence / XGenerator, the dyn_size of XMapping / XSet, and ManagedXValue / ManagedXError::{new, drop} over a ghost ledger of the accounted total",
         "text": "The accounting primitives are proved against one-step contracts for every limit, accounted size and request: Ok adds exactly the size and stays within the limit, Err leaves the total unchanged, deallocate returns exactly the size, allocate-then-drop is the identity, and raising the limit never turns Ok into Err. The accounted size of a value (XValue::size) is proved to be size_of::<XValue>() plus its payload: the bytes of a string's buffer plus its character index, one word per struct field, the reported size of a big integer or native value; the dyn_size of array / zip / chain sequences and generators is at least one word per element held. ManagedXValue::new and ManagedXError::new are proved to record exactly the amount Runtime::allocate added (nothing on failure) and their Drop impls to return exactly the recorded amount.",
-        "note": "Decides the primitives and the size function of XValue/FencedString: the dyn_size/full_size impls of native values, that every container goes through ManagedXValue::new, and the natives' pre-flight checks are unreached. Trusted: Kani/CBMC, in-crate build substitutions.",
+        "note": "One OPEN known finding (DESIGN 7 row 42): XStack::dyn_size leaves the nodes of a stack unaccounted once the previous version of the stack has died; the property-derived clause fails, is listed in known_findings.json and printed as KNOWN-FINDING. Decides the primitives and the size function of XValue/FencedString: the dyn_size/full_size impls of native values, that every container goes through ManagedXValue::new, and the natives' pre-flight checks are unreached. Trusted: Kani/CBMC, in-crate build substitutions.",
     },
     "C11": {
         "engine": "vx+verus",
